@@ -22,16 +22,18 @@ import (
 	"github.com/IrineSistiana/mosproxy/internal/pool"
 	"github.com/IrineSistiana/mosproxy/internal/upstream"
 	"github.com/IrineSistiana/mosproxy/internal/verifhook"
+	"github.com/IrineSistiana/mosproxy/verif/internal/dnsclient"
 	"github.com/IrineSistiana/mosproxy/verif/internal/fakeup"
 	"github.com/IrineSistiana/mosproxy/verif/internal/gen"
 	"github.com/IrineSistiana/mosproxy/verif/internal/pki"
 	"github.com/IrineSistiana/mosproxy/verif/internal/proxyproc"
 	"github.com/IrineSistiana/mosproxy/verif/internal/racelog"
+	"github.com/miekg/dns"
 )
 
 func init() {
 	register(&Check{ID: "C20", Level: "exploration",
-		Rule: "race detector + pool/ownership sanitizers over (A) end-to-end stress on all listeners/upstreams with abandoned client connections, failing upstreams, tiny cache with injected delays, quarantine on and off, and (B) in-process exchanges on every upstream transport with context deadlines of 0-2.5 ms against a 0-3 ms server that closes 15% of the connections after a reply (retries on reused connections; the server must only ever receive well-formed queries that were asked), (C) the in-process cache stress, (D) the hostile-decoder workload of C01 judged for ownership reports only (its inputs count as distinct cases), (E) keys and values whose buffers the caller overwrites and releases right after MemoryCache.Store (every key must be found again, unchanged); " +
+		Rule: "race detector + pool/ownership sanitizers over (A) end-to-end stress on all listeners/upstreams with abandoned client connections, failing upstreams, tiny cache with injected delays, quarantine on and off, and (B) in-process exchanges on every upstream transport with context deadlines of 0-2.5 ms against a 0-3 ms server that closes 15% of the connections after a reply (retries on reused connections; the server must only ever receive well-formed queries that were asked), (C) the in-process cache stress, (D) the hostile-decoder workload of C01 judged for ownership reports only (its inputs count as distinct cases), (E) keys and values whose buffers the caller overwrites and releases right after MemoryCache.Store (every key must be found again, unchanged), (F) a proxy with a small client limit flooded over UDP, TCP and gnet (the refusal paths recycle buffers too); " +
 			"one evaluation = one request/exchange executed under the sanitizers; distinct non-trivial = distinct (workload, listener-or-transport, outcome) cells exercised",
 		Run: runC20})
 	children["c20tr"] = c20TransportChild
@@ -215,6 +217,8 @@ func runC20(c *Ctx) {
 	c.sigFilter = nil
 	// ---- (C) in-process cache: large values overwritten while readers are delayed between lookup and copy
 	c07Stress(c)
+	// ---- (F) refusal paths under a flood
+	c20LimiterFlood(c)
 	// ---- (E) the cache keeps nothing that belongs to its caller: key and value buffers are recycled right after Store
 	c07CallerBuffers(c)
 	c.Ev.Sample(map[string]any{"workload": "e2e-quarantine", "listeners": allListeners, "abandon_probability": 0.08, "cache_bytes": 48 * 1024, "delay_point": "memcache.get=sleep(300us,25%)"})
@@ -368,4 +372,49 @@ func c20TransportChild(args []string) int {
 	st := pool.VerifGetStats()
 	fmt.Printf("COUNT pool_gets %d\nCOUNT pool_releases %d\nCOUNT pool_quarantine_exits %d\nCOUNT pool_reports %d\nCOUNT hook_reports %d\n", st.Gets, st.Releases, st.QuarantineExit, st.Reports, verifhook.ReportCount())
 	return 0
+}
+
+// c20LimiterFlood: the refusal paths own pooled buffers too. A proxy with a small client limit is
+// flooded over UDP and TCP by one address (most queries are answered REFUSED by the limiter) while a
+// second address keeps asking ordinary questions; the pool and ownership sanitizers and the race
+// detector watch.
+func c20LimiterFlood(c *Ctx) {
+	b, err := NewBed(c, "limiter-flood", BedOpts{Upstreams: []string{"pipe"}, Listeners: []string{"udp", "tcp", "gnet"}, MemSize: 1 << 20,
+		Limiter: "  client:\n    limit: 5\n    burst: 10\n"})
+	if err != nil {
+		c.startFailure(err, "c20-limiter-flood")
+		return
+	}
+	uc, err := dnsclient.DialUDP("127.66.6.1", b.L["udp"])
+	if err == nil {
+		for i := 0; i < 300; i++ {
+			uc.Send(mkQuery(uint16(i+1), fmt.Sprintf("ok-lf%d.pipe.test.", i), dns.TypeA, dns.ClassINET, i%2 == 0))
+			if i%10 == 9 {
+				time.Sleep(time.Millisecond)
+				b.Exchange("udp", mkQuery(uint16(1000+i), fmt.Sprintf("ok-lfq%d.pipe.test.", i), dns.TypeA, dns.ClassINET, false), xOpts{LocalIP: fmt.Sprintf("127.66.%d.1", 7+i%100), Timeout: 2 * time.Second})
+			}
+		}
+		time.Sleep(300 * time.Millisecond)
+		c.Ev.Count("limiter_flood_udp_responses", int64(len(uc.Received())))
+		uc.Close()
+	}
+	for _, l := range []string{"tcp", "gnet"} {
+		if sc, err := dnsclient.DialStream("127.66.6.2", b.L[l], nil); err == nil {
+			for i := 0; i < 60; i++ {
+				sc.SendFrame(mkQuery(uint16(i+1), fmt.Sprintf("ok-lfs%d%s.pipe.test.", i, l), dns.TypeA, dns.ClassINET, false))
+			}
+			sc.WaitFrames(60, 3*time.Second)
+			c.Ev.Count("limiter_flood_stream_responses", int64(len(sc.Frames())))
+			sc.Close()
+		}
+	}
+	c.Ev.Eval(420)
+	alive := b.Proxy.Alive()
+	res := b.Stop()
+	if !alive {
+		c.Violation("e2e:proxy-crash:limiter-flood", "the proxy died while refusing a flood: "+res.Panic, map[string]any{"panic": res.Panic})
+		return
+	}
+	c20ReportSanitizers(c, "limiter-flood", res.Races, res.PoolReports, res.HookReports)
+	c.Ev.Distinct("limiter-flood", len(res.PoolReports) == 0)
 }
